@@ -185,6 +185,11 @@ class Program:
             self.modules[name] = Module(name, path, "%s/%s" % (PKG, fn), src)
         if PKG not in self.modules:
             raise AnalysisError("goodwe/__init__.py missing")
+        # undo consistent renames of private identifiers (see renames.py): the rules speak the pinned vocabulary
+        from .renames import canonicalise
+        self.renames: Dict[str, str] = canonicalise({name: m.tree for name, m in self.modules.items()})
+        from .desugar import desugar
+        self.desugared: int = desugar({name: m.tree for name, m in self.modules.items()})
 
     def digests(self) -> Dict[str, str]:
         return {m.relpath: m.sha256 for m in self.modules.values()}
@@ -655,7 +660,51 @@ class Program:
             return self._consteval_call(expr, mod, env, cls)
         if isinstance(expr, ast.Lambda):
             return expr
+        if isinstance(expr, (ast.GeneratorExp, ast.ListComp, ast.SetComp, ast.DictComp)):
+            return self._consteval_comp(expr, mod, env, cls)
         raise NotConst(type(expr).__name__)
+
+    def _consteval_comp(self, expr, mod, env, cls):
+        """Comprehensions over constant iterables (bounded)."""
+        out = []
+        budget = [20000]
+
+        def bind(t, v, e2):
+            if isinstance(t, ast.Name):
+                e2[t.id] = v
+            elif isinstance(t, (ast.Tuple, ast.List)):
+                vs = list(v)
+                if len(vs) != len(t.elts):
+                    raise NotConst("unpacking in comprehension")
+                for a, b in zip(t.elts, vs):
+                    bind(a, b, e2)
+            else:
+                raise NotConst("comprehension target")
+
+        def rec(k, e2):
+            if k == len(expr.generators):
+                if isinstance(expr, ast.DictComp):
+                    out.append((self.consteval(expr.key, mod, e2, cls), self.consteval(expr.value, mod, e2, cls)))
+                else:
+                    out.append(self.consteval(expr.elt, mod, e2, cls))
+                return
+            g = expr.generators[k]
+            if g.is_async:
+                raise NotConst("async comprehension")
+            for item in self.consteval(g.iter, mod, e2, cls):
+                budget[0] -= 1
+                if budget[0] < 0:
+                    raise NotConst("comprehension too large")
+                e3 = dict(e2)
+                bind(g.target, item, e3)
+                if all(self.consteval(c, mod, e3, cls) for c in g.ifs):
+                    rec(k + 1, e3)
+        rec(0, dict(env))
+        if isinstance(expr, ast.DictComp):
+            return dict(out)
+        if isinstance(expr, ast.SetComp):
+            return set(out)
+        return out
 
     def _owner_module(self, mod: Module, name: str, _seen=None) -> Module:
         _seen = _seen or set()
@@ -699,6 +748,22 @@ class Program:
             raise
         except Exception as e:
             raise NotConst("call failed: %s" % e)
+        # a package function applied to constants: fold it (pure helper such as model._has_any_tag)
+        if isinstance(f, ast.Name) and not expr.keywords:
+            b = self.lookup(mod, f.id)
+            depth = env.get("__fold_depth__", 0) if isinstance(env, dict) else 0
+            if b and b[0] == "func" and depth < 4 and not b[1].is_async:
+                from .constfold import fold_function
+                g = b[1]
+                if len(args) <= len(g.params):
+                    a2 = dict(zip(g.params, args))
+                    defaults = g.node.args.defaults
+                    for pn, d in zip(g.params[len(g.params) - len(defaults):], defaults):
+                        if pn not in a2:
+                            a2[pn] = self.consteval(d, g.module)
+                    a2["__fold_depth__"] = depth + 1
+                    if all(pn in a2 for pn in g.params):
+                        return fold_function(self, g, args=a2)
         raise NotConst(node_src(expr))
 
 
@@ -713,7 +778,8 @@ UNKNOWN = _Unknown()
 
 _PURE_BUILTINS = {"len": len, "int": int, "abs": abs, "min": min, "max": max, "tuple": tuple, "str": str,
                   "float": float, "bool": bool, "bytes": bytes, "round": round, "hex": hex, "list": list,
-                  "sum": sum, "range": range, "sorted": sorted, "set": set, "dict": dict, "frozenset": frozenset}
+                  "sum": sum, "range": range, "sorted": sorted, "set": set, "dict": dict, "frozenset": frozenset,
+                  "any": any, "all": all, "zip": zip, "enumerate": enumerate, "reversed": reversed, "bin": bin}
 _PURE_METHODS = {"hex", "format", "upper", "lower", "encode", "decode", "startswith", "endswith", "strip", "rstrip",
                  "lstrip", "to_bytes", "get", "keys", "values", "items", "count", "index", "join", "split", "replace",
                  "bit_length"}
